@@ -431,6 +431,50 @@ func srvRunCase(o *common.Out, id string, nconn int, reqs []sreqCase, order []in
 			break
 		}
 	}
+	// the server keeps serving: a service published now (while requests have failed in every way above) becomes
+	// callable - on a new connection - and the old connections go on
+	{
+		late := fmt.Sprintf("Late%d", len(reqs))
+		regDone := make(chan error, 1)
+		go func() { regDone <- rig.srv.RegisterName(late, &Arith{h: rig.h}, "") }()
+		select {
+		case err := <-regDone:
+			if err != nil {
+				fail("late-registration", "registering a service while serving: "+err.Error())
+			}
+		case <-time.After(2 * time.Second):
+			fail("server-stuck", "registering a service while the server is serving does not return")
+		}
+		if lp, err := rig.connect(); err == nil {
+			rig.h.mu.Lock()
+			wasGated := rig.h.gated
+			rig.h.gated = false
+			rig.h.mu.Unlock()
+			pl, _ := json.Marshal(map[string]interface{}{"Id": 7777, "A": 6, "B": 7, "Mode": "ok"})
+			lp.send(reqSpec{seq: 5, path: late, method: "Mul", ser: 1, payload: pl})
+			if f := lp.next(2 * time.Second); f == nil {
+				fail("server-stuck", "a request on a new connection to a service published while serving got no answer")
+			} else if rp, ok := replyOf(viewFrame(f)); !ok || rp.C != 42 {
+				fail("wrong-result", "the service published while serving answered "+showView(viewFrame(f), nil, -1))
+			}
+			lp.close()
+			rig.h.mu.Lock()
+			rig.h.gated = wasGated
+			for i, x := range rig.h.invoked {
+				if x == 7777 {
+					rig.h.invoked = append(rig.h.invoked[:i], rig.h.invoked[i+1:]...)
+					break
+				}
+			}
+			rig.h.mu.Unlock()
+			for len(rig.h.entered) > 0 {
+				<-rig.h.entered
+			}
+			for len(rig.h.finished) > 0 {
+				<-rig.h.finished
+			}
+		}
+	}
 	// nothing else may be on any connection: a heartbeat's echo must be the very next frame
 	for c, p := range peers {
 		if authClosed[c] {
